@@ -373,7 +373,9 @@ class BacktestingDispatcher(EventDispatcher):
     async def _dispatch_events(self, dt: datetime.datetime):
         # Pop events, push them into the task pool, and wait those to finish executing.
         self._last_dt = dt
-        for source, evnt in self._event_mux.pop_while(dt):
+        # Pop all the events before pushing them. If the pool is full, pushing will give running handlers a chance to
+        # generate new events for dt, and those should be dispatched after the ones that are already available.
+        for source, evnt in list(self._event_mux.pop_while(dt)):
             await self._handlers_task_pool.push(
                 self._dispatch_event(EventDispatch(event=evnt, handlers=self._event_handlers.get(source, [])))
             )
